@@ -342,6 +342,22 @@ def _tissue_case(case, mon, sigs, hist, metrics):
             at = base
         if rng.random() < 0.4 and case["fam"] != "hub":
             at = at.sub(tissue.random_connected_subset(rng, at, int(rng.integers(3, len(at.cells) + 1))))
+        if case["fam"] not in ("hub", "straight") and case["seed"][2] % 5 == 3:
+            # a small cell wedged into an interface: its two neighbours then share TWO separate (differently curved) interfaces
+            wd = tissue.with_wedge(np.random.default_rng([case["seed"][2], len(at.J), 4]), at)
+            if wd is not None:
+                at = wd
+                (pk, w_) = at.meta["wedge"]
+                at.PHI[frozenset((pk[0], w_[0]))] = 0.15 if frozenset((pk[0], w_[0])) in at.E else 0.0
+                for key_ in list(at.E):
+                    if w_[1] in key_ and (pk[0] in key_ or pk[1] in key_):
+                        at.PHI[key_] = -0.1
+                    if w_[0] in key_ and (pk[0] in key_ or pk[1] in key_):
+                        at.PHI[key_] = 0.15
+                # ... and the wedge itself is left out (a small hole), so that every interface of the mesh is one interface of
+                # the generating tissue
+                at = at.sub([c_ for c_ in at.cells if c_ != max(at.cells)])
+                hist["wedged-hole"] = hist.get("wedged-hole", 0) + 1
         at, posed = scen.pose(rng, at, mode=["id", "rot", "sim", "reflect"][int(rng.integers(4))])
         k = int(rng.integers(1, 16))
         orient = ["ccw", "cw", "mixed"][int(rng.integers(3))]
